@@ -36,7 +36,9 @@ Steps(st, op, D) ==
          ELSE IF st.in THEN      \* nested patching is refused, without damage
               {R(st, Obs("raised", "fake", ExtraIn(st.kind), "na"))}
          ELSE IF op.kind \in BadKinds THEN
-              {R(st, Obs("raised", "orig", "na", "na"))}
+              \* patch() failed while setting up: the targets are the originals and the instance made for the block that never
+              \* began is shut down (closed = "yes": no instance of this call is left with an open engine connection)
+              {R(st, Obs("raised", "orig", "na", "yes"))}
               \cup (IF "C20.failed_enter_leaves_patched" \in D
                     THEN {RT([st EXCEPT !.poisoned = TRUE], Obs("raised", "fake", "na", "na"))} ELSE {})
          ELSE LET s2 == [st EXCEPT !.in = TRUE, !.kind = op.kind, !.conns = 0] IN
@@ -72,6 +74,7 @@ StepOk(st, op, r) ==
   /\ (~r.post.in => r.obs.std = "orig" /\ r.obs.extra \in {"orig", "na"})        \* Restored, for every way of leaving
   /\ (r.post.in => r.obs.std = "fake")
   /\ (op.k = "exit" => ~r.post.in /\ (st.conns > 0 => r.obs.closed = "yes"))
+  /\ (op.k = "enter" /\ ~st.in /\ op.kind \in BadKinds => r.obs.closed = "yes")   \* a failed set-up leaves no open instance behind
   /\ (op.k = "enter" /\ st.in => r.post = st /\ r.obs.res = "raised")            \* nesting refused without damage
   /\ (op.k = "enter" /\ ~st.in /\ op.kind \in OkKinds => r.post.in)              \* (re-)entry always possible
   /\ (op.k = "argv" => r.obs.argv = <<"T">> \o op.rest)
